@@ -526,7 +526,35 @@ fn trace_for(seed: u64, thorough: bool, from: u64, vi: u64, ci: usize) -> Vec<Ca
     })
 }
 
+/// set by --isolated: every replay attempt runs in a process of its own (state shared between threads - a static
+/// behind a lock - survives a fresh thread, not a fresh process)
+static ISOLATED: std::sync::atomic::AtomicBool = std::sync::atomic::AtomicBool::new(false);
+static VERIF_DIR: std::sync::OnceLock<String> = std::sync::OnceLock::new();
+static TMP_COUNTER: std::sync::atomic::AtomicU64 = std::sync::atomic::AtomicU64::new(0);
+
+fn sequence_violates_in_fresh_process(seq: &[Case], class: &Class) -> Option<Outcome> {
+    let dir = format!("{}/replays", VERIF_DIR.get().map(String::as_str).unwrap_or("/verif"));
+    let _ = std::fs::create_dir_all(&dir);
+    let path = format!("{dir}/tmp-{}-{}.json", std::process::id(), TMP_COUNTER.fetch_add(1, std::sync::atomic::Ordering::Relaxed));
+    let rf = ReplayFile {
+        property: "C05".into(), class: class.clone(), message: String::new(), seed: 0, value_index: 0, case_index: 0, case: seq.last()?.clone(), sequence: Some(seq.to_vec()), minimised_from: None, minimise_steps: 0, function: String::new(), point: String::new(), got: vec![], reference: vec![], finding_key: String::new(),
+    };
+    std::fs::write(&path, serde_json::to_string(&rf).ok()?).ok()?;
+    let out = std::process::Command::new(std::env::current_exe().ok()?).args(["--replay", &path, "--verif-dir", VERIF_DIR.get().map(String::as_str).unwrap_or("/verif")]).output().ok()?;
+    let _ = std::fs::remove_file(&path);
+    let text = String::from_utf8_lossy(&out.stdout);
+    let tag = format!("  violation: {class:?}: ");
+    let msg = text.lines().find_map(|l| l.strip_prefix(&tag))?;
+    if out.status.code() != Some(1) {
+        return None;
+    }
+    Some(Outcome { kind: String::new(), calls: 0, function: String::new(), point: String::new(), got: vec![], want: vec![], violation: Some((class.clone(), msg.to_string())) })
+}
+
 fn sequence_violates(seq: &[Case], class: &Class) -> Option<Outcome> {
+    if ISOLATED.load(std::sync::atomic::Ordering::Relaxed) {
+        return sequence_violates_in_fresh_process(seq, class);
+    }
     let (seq, class) = (seq.to_vec(), class.clone());
     in_fresh_thread(move || {
         let mut last = None;
@@ -665,6 +693,9 @@ fn arg(args: &[String], name: &str) -> Option<String> {
 fn main() {
     let args: Vec<String> = std::env::args().collect();
     let verif_dir = arg(&args, "--verif-dir").unwrap_or_else(|| "/verif".to_string());
+    let _ = VERIF_DIR.set(verif_dir.clone());
+    let isolated = args.iter().any(|a| a == "--isolated");
+    ISOLATED.store(isolated, std::sync::atomic::Ordering::Relaxed);
     std::panic::set_hook(Box::new(|_| {}));
     if let Some(path) = arg(&args, "--replay") {
         let txt = std::fs::read_to_string(&path).unwrap_or_else(|e| { eprintln!("cannot read {path}: {e}"); std::process::exit(2) });
@@ -700,7 +731,7 @@ fn main() {
     let thorough = tier == "thorough";
     let seed: u64 = arg(&args, "--seed").or_else(|| std::env::var("VERIF_SEED").ok()).and_then(|s| s.trim().parse().ok()).unwrap_or(20261002);
     let values: u64 = arg(&args, "--values").and_then(|s| s.parse().ok()).unwrap_or(if thorough { 3_000_000 } else { 60_000 });
-    let threads: u64 = arg(&args, "--threads").and_then(|s| s.parse().ok()).unwrap_or_else(|| std::thread::available_parallelism().map(|n| n.get() as u64).unwrap_or(4));
+    let threads: u64 = if isolated { 1 } else { arg(&args, "--threads").and_then(|s| s.parse().ok()).unwrap_or_else(|| std::thread::available_parallelism().map(|n| n.get() as u64).unwrap_or(4)) };
     let evidence_path = arg(&args, "--evidence").unwrap_or_else(|| format!("{verif_dir}/evidence/C05.json"));
     println!("C05 closure-seam simulation: seed={seed} tier={tier} scenarios={values} threads={threads}");
     let t0 = Instant::now();
@@ -746,10 +777,10 @@ fn main() {
     let st = run_all(threads, values);
     let main_wall = t0.elapsed().as_secs_f64();
     let det_values = (values / 4).clamp(1, 3000);
-    let d1 = run_all(threads, det_values);
-    let d2 = run_all(3, det_values);
+    let d1 = if isolated { Stats::default() } else { run_all(threads, det_values) };
+    let d2 = if isolated { Stats::default() } else { run_all(3, det_values) };
     let deterministic = d1.digest == d2.digest && d1.cases == d2.cases && d1.violations.keys().eq(d2.violations.keys());
-    if !deterministic && st.violations.is_empty() && d1.violations.is_empty() && d2.violations.is_empty() {
+    if !isolated && !deterministic && st.violations.is_empty() && d1.violations.is_empty() && d2.violations.is_empty() {
         eprintln!("HARNESS ERROR: two executions of seed {seed} differ (digest {:x} vs {:x}, cases {} vs {}): behaviour depends on the history of the thread", d1.digest, d2.digest, d1.cases, d2.cases);
         std::process::exit(2);
     }
@@ -771,21 +802,42 @@ fn main() {
             continue;
         }
         let (class, msg) = o.violation.clone().unwrap();
-        let alone = {
-            let (c, cl) = (case.clone(), class.clone());
-            in_fresh_thread(move || same_class(&c, &cl).is_some())
-        };
+        // does the case fail on its own?  Asked of a fresh process, so that neither thread-local nor global state left by
+        // the batch can answer for it.
+        let alone = sequence_violates_in_fresh_process(std::slice::from_ref(case), &class).is_some();
         let dir = format!("{verif_dir}/replays");
         let _ = std::fs::create_dir_all(&dir);
         let path = format!("{dir}/C05-seed{seed}-v{vi}-c{ci}.json");
         if !alone {
             let full = trace_for(seed, thorough, *worker_from, *vi, *ci);
-            if sequence_violates(&full, &class).is_none() {
+            let confirmed = sequence_violates(&full, &class).is_some();
+            let minimised = if confirmed { Some(minimise_sequence(full.clone(), &class)) } else { None };
+            let replays = minimised.as_ref().map_or(false, |(seq, _, _)| isolated || sequence_violates_in_fresh_process(seq, &class).is_some());
+            if !replays {
+                if !isolated {
+                    // state shared between threads?  Search again with ONE worker in a process of its own, in which every
+                    // replay attempt is a fresh process too: the global order of operations is then deterministic.
+                    eprintln!("the violation {key} seen at scenario {vi} case {ci} reproduces neither alone nor from the history of its worker: searching again with one worker and process-isolated replays ...");
+                    let child = std::process::Command::new(std::env::current_exe().expect("current_exe"))
+                        .args(["--isolated", "--tier", &tier, "--seed", &seed.to_string(), "--values", &(st.violations.values().map(|v| v.0).max().unwrap_or(*vi) + 1).to_string(), "--verif-dir", &verif_dir, "--evidence", &format!("{verif_dir}/replays/isolated-evidence.json")])
+                        .output();
+                    if let Ok(out) = child {
+                        let text = String::from_utf8_lossy(&out.stdout);
+                        if out.status.code() == Some(1) && text.contains("VIOLATION property=C05") {
+                            for l in text.lines().filter(|l| l.starts_with("violation class") || l.starts_with("  ") || l.starts_with("VIOLATION")) {
+                                println!("{l}");
+                            }
+                            println!("  (found by the process-isolated search: the state involved is shared between threads)");
+                            exit = 1;
+                            continue;
+                        }
+                    }
+                }
                 eprintln!("HARNESS ERROR: the violation {key} seen at scenario {vi} case {ci} reproduces neither alone nor from the history of its worker (scenarios {worker_from}..={vi})");
                 std::process::exit(2);
             }
             let n0 = full.len();
-            let (seq, mo, steps) = minimise_sequence(full, &class);
+            let (seq, mo, steps) = minimised.expect("confirmed above");
             let rf = ReplayFile {
                 property: "C05".into(), class: class.clone(), message: mo.violation.as_ref().map(|v| v.1.clone()).unwrap_or(msg), seed, value_index: *vi, case_index: *ci,
                 case: seq.last().unwrap().clone(), sequence: Some(seq.clone()), minimised_from: None, minimise_steps: steps, function: mo.function.clone(), point: mo.point.clone(),
